@@ -439,6 +439,33 @@ def postcondition_probes(chk, rng):
                 chk.violation("distribution:%s" % name, "frequencies %s deviate from p=%s beyond the fixed bound" % (ff, p), dict(p=p))
 
 
+def dataset_sizes(chk):
+    """generate_dataset / generate_data: one data list per schedule with exactly the requested length - zero included
+    ("non-negative integers") - holding only outcomes of non-zero probability of THAT schedule."""
+    from quara.qcircuit.experiment import Experiment
+    from quara.qcircuit import data_generator as dg
+    pool = qobjs.pool_1qubit()
+    c = pool["csys"]
+    exp = Experiment(schedules=[[("state", 0), ("povm", 0)], [("state", 0), ("povm", 1)], [("state", 0), ("povm", 2)]],
+                     states=[qobjs.gen("state", "z0", c)], povms=[qobjs.gen("povm", n, c) for n in ("z", "x", "y")], seed_data=5)
+    probs = [np.asarray(p, dtype=float) for p in exp.calc_prob_dists()]
+    for nums in ([30, 40, 50], [0, 40, 50], [40, 0, 50], [40, 50, 0], [0, 0, 7], [0, 0, 0]):
+        chk.count(1, ("dataset_sizes", tuple(nums)))
+        try:
+            ds = exp.generate_dataset(list(nums), 11)
+            ds2 = dg.generate_dataset_from_prob_dists([p.copy() for p in probs], list(nums), [np.random.Generator(np.random.MT19937(11))] * 3)
+        except Exception as e:
+            chk.violation("dataset_sizes:exception", "generate_dataset(%s) raised %r" % (nums, e), dict(nums=nums))
+            continue
+        for name, d in (("Experiment.generate_dataset", ds), ("generate_dataset_from_prob_dists", ds2)):
+            if len(d) != len(nums) or any(len(x) != n for x, n in zip(d, nums)):
+                chk.violation("dataset_sizes:lengths", "%s(%s) returns lists of lengths %s" % (name, nums, [len(x) for x in d]), dict(nums=nums))
+                break
+            if any(any(probs[j][int(o)] <= 0 or not (0 <= int(o) < len(probs[j])) for o in d[j]) for j in range(len(nums))):
+                chk.violation("dataset_sizes:zero_probability", "%s(%s): a schedule's data contain an outcome that schedule cannot produce" % (name, nums), dict(nums=nums))
+                break
+
+
 def tomography_distributions(chk):
     """All four tomography types' data-generation entry points: the data of schedule j follow the Born distribution of
     schedule j (fixed, astronomically unlikely bound), outcomes of probability zero never occur - for every schedule index,
@@ -519,6 +546,7 @@ def run(chk):
     # (3)
     postcondition_probes(chk, rng)
     tomography_distributions(chk)
+    dataset_sizes(chk)
     chk.assumptions += [
         "outputs are compared through hashes; different stream positions are expected to give different data (draw sizes chosen so that accidental equality is negligible)",
         "statistical agreement is a fixed-bound sanity check outside the TLA+ argument",
